@@ -1,12 +1,12 @@
 # C16: message and transaction identity hashes match their source cells (spec/MsgHash.tla).
-import json, os, copy, hashlib, collections
+import json, os, copy, hashlib, collections, time
 import vlib
 from vlib import Infra, log
 
 RULE = ("S->C: TLC enumerates the message-shape case analysis of MsgHash_Gen (kind x init none/inline/ref x body inline/ref x "
         "source kind x destination kind x anycast x fee class x body variant: 720 cases) and the pairs of external-in cases with the "
         "relation MsgHash!CaseRelation requires between their normalised hashes (quick: the 2880 pairs that differ in exactly one "
-        "coordinate; thorough: all 165600 enumerated, every 'equal'/'free' pair and a seeded sample of the 'differ' pairs replayed); "
+        "coordinate, a seeded half of them replayed; thorough: all 165600 enumerated, every 'equal'/'free' pair and a seeded sample of the 'differ' pairs replayed); "
         "the Go harness concretises each with the library's own types, encodes, decodes without and with a caching hasher and records "
         "Hash(false)/Hash(true) with the source cells; MsgHash_Trace re-derives shape, identity hash, the canonical external-in cell "
         "(TEP-467) and the pair relation from the cells and requires the reports to agree. C->S: random messages of the three kinds "
@@ -149,6 +149,10 @@ def gen_vectors(ck):
         rest = [p for p in pairs if p["exp"] != "differ"]
         ck.rng.shuffle(diff)
         pairs = rest + diff[:26000]
+    else:
+        # quick tier: TLC enumerates (and MsgHash!CaseRelation classifies) every one-coordinate pair; a seeded half is replayed
+        ck.rng.shuffle(pairs)
+        pairs = pairs[:1440]
     vecs = cases + pairs
     for i, v in enumerate(vecs):
         v["vec"] = i
@@ -208,7 +212,7 @@ def run(ck):
     ck.build_vh()
     # S->C (generate, concretise) and C->S (record) run side by side; then every trace is judged by MsgHash_Trace
     shards = vlib.NCPU if ck.thorough else 8
-    njvm = 8 if ck.thorough else 5
+    njvm = 8 if ck.thorough else 4
 
     def s2c():
         vecs = gen_vectors(ck)
@@ -222,8 +226,11 @@ def run(ck):
             return tp
         traces = vlib.parallel(drive, range(shards))
         return None, traces, merge(ck, traces, njvm, "jdrive")
+    log("built harness at %.1fs" % (time.time() - ck.t0))
     (vecs, gtraces, jg), (_, traces, jd) = vlib.parallel(lambda f: f(), [s2c, c2s], n=2)
+    log("vectors generated and concretised, traces recorded at %.1fs" % (time.time() - ck.t0))
     anyc, _ = judge(ck, jg + jd, par=vlib.NCPU)
+    log("traces judged at %.1fs" % (time.time() - ck.t0))
     gs, gdistinct, _ = stats(gtraces)
     ck.sample({"direction": "S->C", "case": vecs[7]["c"], "pair": next(v for v in vecs if v["k"] == "pair" and v["exp"] == "free")})
     ds, ddistinct, ncells = stats(traces)
